@@ -391,7 +391,7 @@ char * xml_extract_named_attribute(const char * source, size_t start, const char
 			lower_attr = my_strndup(attr, strlen(attr));
 
 			// Use lower case for easy comparison
-			for(int i = 0; lower_name[i]; i++){
+			for(int i = 0; lower_attr[i]; i++){
 		 		 lower_attr[i] = tolower(lower_attr[i]);
 			}
 
